@@ -204,6 +204,112 @@ def _site(rep, rule, qn, fn, desc, got, expected_text, why):
                  sample={"site": desc, "source_formula": core.norm(str(got), 200), "closed_by": how} if ok else None, obligation=True)
 
 
+def _cp_numerical_value(fn, i, loop):
+    """Symbolic value of the term appended to cp in the loop body, in terms of T-1, T+0, T+1 (temperatures at
+    i-1, i, i+1) and E-1, E+0, E+1 (equilibrium energies); np.polyfit over the three-point slices is interpreted
+    as the interpolating quadratic.  Returns (expr | None, reason)."""
+    iv = sp.Symbol(i)
+    T = {k: sp.Symbol(f"T{k:+d}") for k in (-1, 0, 1)}
+    E = {k: sp.Symbol(f"E{k:+d}") for k in (-1, 0, 1)}
+    env = {}
+    pre = [st for st in fn.body if isinstance(st, ast.Assign) and st.lineno < loop.lineno]
+
+    class Bail(Exception):
+        pass
+
+    def offset(e):
+        try:
+            v = sp.sympify(core.src(e), locals={i: iv}) - iv
+        except Exception:
+            raise Bail(f"index {core.src(e)}")
+        if v not in (-1, 0, 1, 2):
+            raise Bail(f"index {core.src(e)}")
+        return int(v)
+
+    def ev(e):
+        if isinstance(e, ast.Constant) and isinstance(e.value, (int, float)):
+            return sp.nsimplify(e.value)
+        if isinstance(e, ast.Name):
+            if e.id in env:
+                return env[e.id]
+            if e.id == "EvTokJmol":
+                return sp.Symbol("EvTokJmol")
+            raise Bail(f"name {e.id}")
+        if isinstance(e, ast.Attribute):
+            t = core.src(e)
+            if t == "self._temperatures":
+                return ("arr", T)
+            if t == "self._equiv_energies":
+                return ("arr", E)
+            raise Bail(f"attribute {t}")
+        if isinstance(e, ast.UnaryOp) and isinstance(e.op, ast.USub):
+            return -ev(e.operand)
+        if isinstance(e, ast.BinOp):
+            a, b = ev(e.left), ev(e.right)
+            if isinstance(a, tuple) or isinstance(b, tuple):
+                arr, sc = (a, b) if isinstance(a, tuple) else (b, a)
+                if isinstance(sc, tuple) or not isinstance(e.op, (ast.Mult, ast.Div)) or (isinstance(e.op, ast.Div) and arr is b):
+                    raise Bail("array arithmetic")
+                f = (lambda x: x * sc) if isinstance(e.op, ast.Mult) else (lambda x: x / sc)
+                if arr[0] == "arr":
+                    return ("arr", {k: f(v) for k, v in arr[1].items()})
+                return ("list", [f(v) for v in arr[1]])
+            op = {ast.Add: lambda: a + b, ast.Sub: lambda: a - b, ast.Mult: lambda: a * b, ast.Div: lambda: a / b, ast.Pow: lambda: a**b}.get(type(e.op))
+            if op is None:
+                raise Bail("operator")
+            return op()
+        if isinstance(e, ast.Call):
+            f = core.src(e.func)
+            if f in ("np.array", "np.asarray", "float") and e.args:
+                return ev(e.args[0])
+            if f == "np.polyfit" and len(e.args) == 3 and isinstance(e.args[2], ast.Constant) and e.args[2].value == 2:
+                xs, ys = ev(e.args[0]), ev(e.args[1])
+                if not (isinstance(xs, tuple) and isinstance(ys, tuple) and xs[0] == ys[0] == "list" and len(xs[1]) == len(ys[1]) == 3):
+                    raise Bail("polyfit operands")
+                a2, a1, a0 = sp.symbols("_a2 _a1 _a0")
+                sol = sp.solve([a2 * x**2 + a1 * x + a0 - y for x, y in zip(xs[1], ys[1])], [a2, a1, a0], dict=True)
+                if not sol:
+                    raise Bail("polyfit solve")
+                return ("list", [sp.simplify(sol[0][a2]), sp.simplify(sol[0][a1]), sp.simplify(sol[0][a0])])
+            raise Bail(f"call {f}")
+        if isinstance(e, ast.Subscript):
+            base = ev(e.value)
+            if not isinstance(base, tuple):
+                raise Bail("subscript of scalar")
+            if isinstance(e.slice, ast.Slice):
+                if base[0] != "arr" or e.slice.lower is None or e.slice.upper is None or e.slice.step is not None:
+                    raise Bail("slice")
+                lo, hi = offset(e.slice.lower), offset(e.slice.upper)
+                return ("list", [base[1][k] for k in range(lo, hi)])
+            if base[0] == "list":
+                if isinstance(e.slice, ast.Constant) and isinstance(e.slice.value, int):
+                    return base[1][e.slice.value]
+                raise Bail("list index")
+            return base[1][offset(e.slice)]
+        raise Bail(type(e).__name__)
+
+    try:
+        for st in pre:
+            if isinstance(st.targets[0], ast.Name):
+                try:
+                    env[st.targets[0].id] = ev(st.value)
+                except Bail:
+                    pass
+        val = None
+        for st in loop.body:
+            if isinstance(st, ast.Assign) and isinstance(st.targets[0], ast.Name):
+                env[st.targets[0].id] = ev(st.value)
+            elif isinstance(st, ast.Expr) and isinstance(st.value, ast.Call) and core.src(st.value.func) == "cp.append":
+                val = ev(st.value.args[0])
+            else:
+                raise Bail(f"statement {type(st).__name__}")
+        if val is None or isinstance(val, tuple):
+            return None, "no scalar appended to cp in the loop"
+        return val, ""
+    except Bail as b:
+        raise AnalysisError(f"{QHA}::QHA._set_heat_capacity_P_numerical: construct outside the modelled fragment ({b})")
+
+
 def _r20f(rep):
     te = core.find_def(QHA, "QHA._set_thermal_expansion")
     i, loop = _loopvar(te, "QHA._set_thermal_expansion")
@@ -220,12 +326,18 @@ def _r20f(rep):
 
     cp = core.find_def(QHA, "QHA._set_heat_capacity_P_numerical")
     i, loop = _loopvar(cp, "QHA._set_heat_capacity_P_numerical")
-    tr = symalg.OpenPyTranslator(where="cp_numerical")
-    tr.summary(cp)
-    got = (tr.appends.get("cp") or [None])[-1]
-    _site(rep, "R20f", "QHA._set_heat_capacity_P_numerical", cp, "Cp_i = -T_i * 2*a2 of quadratic through (T, G)[i-1..i+1], G in J/mol", got,
-          f"-(2 * np.polyfit(self._temperatures[{i}-1:{i}+2], np.array(self._equiv_energies)[{i}-1:{i}+2] * EvTokJmol * 1000, 2)[0]) * self._temperatures[{i}]",
-          "Cp is not -T d2G/dT2 of the local quadratic in J/K/mol")
+    got, how = _cp_numerical_value(cp, i, loop)
+    unit = sp.Symbol("EvTokJmol") * 1000
+    al, be, ga = sp.symbols("alpha beta gamma")
+    T = {k: sp.Symbol(f"T{k:+d}") for k in (-1, 0, 1)}
+    ok = False
+    if got is not None:
+        quad = {sp.Symbol(f"E{k:+d}"): al * T[k] ** 2 + be * T[k] + ga for k in (-1, 0, 1)}
+        resid = sp.simplify(got.subs(quad) - (-T[0] * 2 * al * unit))
+        ok = resid == 0
+        how = f"for G = alpha T^2 + beta T + gamma on three arbitrary temperatures the term is off by {resid}" if not ok else "exact on quadratics for arbitrary (unequal) temperature steps"
+    rep.instance("R20f", QHA, "QHA._set_heat_capacity_P_numerical", "Cp_i = -T_i d2G/dT2 from the three points i-1, i, i+1, exact for quadratic G on any temperature grid, G in J/mol", ok,
+                 f"Cp is not -T d2G/dT2 of the local quadratic in J/K/mol: {how}", line=cp.lineno, sample={"site": "cp_numerical", "closed_by": how} if ok else None, obligation=True)
 
     pf = core.find_def(QHA, "QHA._set_heat_capacity_P_polyfit")
     j, loop = _loopvar(pf, "QHA._set_heat_capacity_P_polyfit")
@@ -275,4 +387,6 @@ def selftest():
     b("Grueneisen: Cv not per volume", QHA, "                / v\n                / 1000\n                / EvTokJmol", "                / 1000\n                / EvTokJmol", "R20f", "gamma_i")
     n("Vinet with a cached ratio", EOS, "        x = (v / p[3]) ** (1.0 / 3)", "        ratio = v / p[3]\n        x = ratio ** (1.0 / 3)")
     n("thermal expansion with renamed locals", QHA, "            dt = self._temperatures[i + 1] - self._temperatures[i - 1]\n            dv = self._equiv_volumes[i + 1] - self._equiv_volumes[i - 1]\n            beta.append(dv / dt / self._equiv_volumes[i])", "            d_temp = self._temperatures[i + 1] - self._temperatures[i - 1]\n            d_vol = self._equiv_volumes[i + 1] - self._equiv_volumes[i - 1]\n            beta.append(d_vol / (d_temp * self._equiv_volumes[i]))")
+    b("Cp by a second difference that assumes equal steps", QHA, '            parameters = np.polyfit(\n                self._temperatures[i - 1 : i + 2], g[i - 1 : i + 2], 2\n            )\n            cp.append(-(2 * parameters[0]) * t)\n', '            dt_m = t - self._temperatures[i - 1]\n            dt_p = self._temperatures[i + 1] - t\n            d2g = (g[i + 1] - 2 * g[i] + g[i - 1]) / (dt_m * dt_p)\n            cp.append(-t * d2g)\n', "R20f", "_set_heat_capacity_P_numerical")
+    n("Cp by the exact three-point second difference", QHA, '            parameters = np.polyfit(\n                self._temperatures[i - 1 : i + 2], g[i - 1 : i + 2], 2\n            )\n            cp.append(-(2 * parameters[0]) * t)\n', '            dt_m = t - self._temperatures[i - 1]\n            dt_p = self._temperatures[i + 1] - t\n            d2g = 2 * ((g[i + 1] - g[i]) / dt_p - (g[i] - g[i - 1]) / dt_m) / (dt_m + dt_p)\n            cp.append(-t * d2g)\n')
     return V
